@@ -354,6 +354,10 @@ func appendSlice(expr ast.Expr, lhsV reflect.Value, rhsV reflect.Value) (reflect
 			if rhsT == interfaceType {
 				value = value.Elem()
 			}
+			if !value.IsValid() {
+				// a nil element has no type to convert from
+				return nilValue, newStringError(expr, "invalid type conversion")
+			}
 			if lhsT == value.Type() {
 				lhsV = reflect.Append(lhsV, value)
 			} else if value.Type().ConvertibleTo(lhsT) {
